@@ -46,7 +46,7 @@ Record ks := {
   donef : nat -> option nat;       (* manager->done_fiber *)
   pubpend : nat -> option nat;     (* a publication of this fiber is pending in the manager's slots *)
   maintf : nat -> option nat;      (* manager->maintenance_fiber *)
-  oldf : nat -> option nat;        (* manager->old_fiber while its deferred actions are being run *)
+  oldf : nat -> option nat;        (* the old fiber left SAVING at the swap: its flip to WAITING is owed by this maintenance *)
   inmaint : nat -> bool;           (* thread is inside do_maintenance *)
   born : nat -> option nat         (* created by thread t, not yet scheduled *)
 }.
@@ -61,7 +61,8 @@ Inductive label :=
 | LSwitch (t o n : nat)            (* fiber_context_swap from o to n on thread t *)
 | LResumed (t : nat)               (* first instruction after the swap: do_maintenance starts *)
 | LDestroy (t f : nat)
-| LMaintEnd (t : nat).             (* do_maintenance returned *)
+| LMaintEnd (t : nat)              (* do_maintenance returned *)
+| LSlotAccess (t owner : nat).     (* thread t touches the deferred-action slots of manager [owner] *)
 
 Definition fst_eqb (a b : fstat) : bool :=
   match a, b with
@@ -95,7 +96,7 @@ Definition switch_target (s : ks) (t n : nat) : bool :=
 Definition kstep (s : ks) (l : label) : option ks :=
   match l with
   | LCreate t g =>
-      if fst_eqb (fs s g) FNone && fst_eqb (fs s (cur s t)) FRun
+      if fst_eqb (fs s g) FNone
       then Some (set_born (set_cx (set_fs s g FReady) g CFresh) g (Some t))
       else None
   | LWrite t f v =>
@@ -110,7 +111,7 @@ Definition kstep (s : ks) (l : label) : option ks :=
           if Nat.eqb f c && fst_eqb (fs s c) FRun && negb (inmaint s t)
           then Some (set_pubpend (set_fs s c FWait) t (Some c))          (* published by a deferred action *)
           else if inmaint s t && oeqb (oldf s t) f && fst_eqb (fs s f) FSaving
-          then Some (set_fs s f FWait)                                   (* the flip done by the successor *)
+          then Some (set_oldf (set_fs s f FWait) t None)                 (* the flip done by the successor *)
           else None
       | FDone =>
           if Nat.eqb f c && fst_eqb (fs s c) FRun && negb (inmaint s t)
@@ -158,7 +159,7 @@ Definition kstep (s : ks) (l : label) : option ks :=
         let s1 := set_cx (set_cx s o CSaved) n (CLive t) in
         let s2 := set_cur s1 t n in
         let s3 := set_hand s2 t None in
-        let s4 := set_oldf s3 t (Some o) in
+        let s4 := set_oldf s3 t (if fst_eqb (fs s o) FSaving then Some o else None) in
         let s5 := set_inmaint s4 t true in
         Some (if oeqb (born s n) t then set_born (set_maintf s5 t (Some n)) n None else s5)
       else None
@@ -173,9 +174,26 @@ Definition kstep (s : ks) (l : label) : option ks :=
       if inmaint s t && oeqb (donef s t) f
       then Some (set_cx (set_donef s t None) f CFreed) else None
   | LMaintEnd t =>
-      if inmaint s t && isnone (tosched s t) && isnone (donef s t) && isnone (pubpend s t) &&
-         match oldf s t with Some o => negb (fst_eqb (fs s o) FSaving) | None => true end
-      then Some (set_inmaint (set_oldf s t None) t false) else None
+      if inmaint s t && isnone (tosched s t) && isnone (donef s t) && isnone (pubpend s t) && isnone (oldf s t)
+      then Some (set_inmaint s t false) else None
+  | LSlotAccess t owner => if Nat.eqb t owner then Some s else None
+  end.
+
+Definition thread_of (l : label) : nat :=
+  match l with
+  | LCreate t _ | LWrite t _ _ | LSlotDone t _ | LSched t _ | LNext t _ | LSteal t _
+  | LSwitch t _ _ | LResumed t | LDestroy t _ | LMaintEnd t | LSlotAccess t _ => t
+  end.
+
+(* the end of do_maintenance is not an event of its own: it is inferred when
+   the thread's next event is not a maintenance action *)
+Definition kstep_auto (s : ks) (l : label) : option ks :=
+  match kstep s l with
+  | Some s' => Some s'
+  | None => match kstep s (LMaintEnd (thread_of l)) with
+            | Some s1 => kstep s1 l
+            | None => None
+            end
   end.
 
 (* n kernel threads; thread t's thread fiber is fiber t; thread t >= 1 runs its
@@ -197,7 +215,7 @@ Inductive kreach (n : nat) : ks -> Prop :=
 Fixpoint accept (s : ks) (ls : list label) (i : nat) : option nat * ks :=
   match ls with
   | [] => (None, s)
-  | l :: r => match kstep s l with
+  | l :: r => match kstep_auto s l with
               | Some s' => accept s' r (S i)
               | None => (Some i, s)
               end
@@ -214,17 +232,40 @@ Fixpoint dec_labels (l : list Z) : list label :=
       (match k with
        | 1%Z => LCreate a' b' | 2%Z => LWrite a' b' (dec_fst c) | 3%Z => LSlotDone a' b'
        | 4%Z => LSched a' b' | 5%Z => LNext a' b' | 6%Z => LSteal a' b' | 7%Z => LSwitch a' b' c'
-       | 8%Z => LResumed a' | 9%Z => LDestroy a' b' | _ => LMaintEnd a'
+       | 8%Z => LResumed a' | 9%Z => LDestroy a' b' | 11%Z => LSlotAccess a' b' | _ => LMaintEnd a'
        end) :: dec_labels r
   | _ => []
   end.
 
-(* input: nthreads, then label quadruples; output: -1 if all accepted, else index of the rejected label *)
+Definition fst_code (v : fstat) : Z :=
+  match v with FNone => 0 | FRun => 1 | FReady => 2 | FWait => 3 | FDone => 4 | FSaving => 5 end%Z.
+Definition cx_code (c : ctxs) : Z :=
+  match c with CNone => 0 | CFresh => 1 | CLive t => 100 + Z.of_nat t | CSaved => 2 | CFreed => 3 end%Z.
+Definition on_code (o : option nat) : Z := match o with Some x => Z.of_nat x | None => (-1)%Z end.
+
+(* input: nthreads, then label quadruples; output: -1 if all accepted, else the
+   index of the rejected label followed by a summary of the state it was
+   rejected in (for the replay file): state and context of the fiber named by
+   the label, the thread's current fiber, inmaint, hand, tosched, donef,
+   pubpend, whether the fiber is queued / available / held *)
 Definition run_case (l : list Z) : list Z :=
   match l with
-  | n :: r => match fst (accept (kinit (Z.to_nat n)) (dec_labels r) 0) with
-              | None => [(-1)%Z]
-              | Some i => [Z.of_nat i]
-              end
+  | n :: r =>
+      let ls := dec_labels r in
+      match accept (kinit (Z.to_nat n)) ls 0 with
+      | (None, _) => [(-1)%Z]
+      | (Some i, s) =>
+          let lab := nth i ls (LMaintEnd 0) in
+          let t := thread_of lab in
+          let f := match lab with
+                   | LCreate _ g => g | LWrite _ g _ => g | LSlotDone _ g => g | LSched _ g => g
+                   | LNext _ g => g | LSteal _ g => g | LSwitch _ _ g => g | LDestroy _ g => g
+                   | _ => 0 end in
+          [Z.of_nat i; fst_code (fs s f); cx_code (cx s f); Z.of_nat (cur s t);
+           (if inmaint s t then 1 else 0)%Z; on_code (hand s t); on_code (tosched s t);
+           on_code (donef s t); on_code (pubpend s t); (if q s f then 1 else 0)%Z;
+           match avail s f with Some AP1 => 1 | Some ASlot => 2 | None => 0 end%Z; on_code (holder s f);
+           on_code (oldf s t)]
+      end
   | [] => [(-2)%Z]
   end.
